@@ -210,6 +210,24 @@ theorem child_view_is_reference_or_constraint (c : Cfg) (nm : String) (parent : 
     rw [e] at hcv
     simp only [Pdlv.decodeFull, hcv, Outcome.bind]
 
+/-- **C14, child views: no undefined behaviour.**  On the same class, with the hypotheses of C01 on every level
+    (`decWfBody`), constructing the chain of views over ANY byte string and calling the child's getters reaches no slice
+    accessor called beyond its slice, no remainder by zero and no endless loop — also on inputs whose constraints do not
+    hold, which the emitted child views go on to parse. -/
+theorem child_view_no_undefined_behaviour (c : Cfg) (nm : String) (parent : Body) (cs allCs : List (String × Nat))
+    (items : Items) (hw : vwfChain (.derived nm parent cs allCs items) = true)
+    (hd : decWfBody (.derived nm parent cs allCs items) = true) (bs : Bytes) (hb : bs.length < usizeMax) (h : Hazard) :
+    viewDecode c (.derived nm parent cs allCs items) bs ≠ .panic h := by
+  intro hp
+  simp only [viewDecode] at hp
+  cases hv : viewBody c (.derived nm parent cs allCs items) bs with
+  | panic h0 => exact chain_no_panic c _ hw hd bs hb h0 hv
+  | err e => simp [hv, Outcome.bind] at hp
+  | ok a =>
+    obtain ⟨v, hz⟩ := a
+    obtain ⟨rfl, _⟩ := (chain_ok c _ hw bs hb).2.1 v hz hv
+    simp [hv, Outcome.bind] at hp
+
 /-- **KF-C14-child-constraint**, derived from the model: `packet R { k: 8, _payload_ }`, `packet C : R (k = 3) { x: 8 }` —
     over `04 07` the chain of views is valid (`GetX()` = 7, `GetK()` would return the constant 3) although `k = 4`; the
     reference rejects the octets with `ConstraintValue` -/
